@@ -49,6 +49,7 @@ except Exception:  # pragma: no cover
     ShtabAction = ()
 
 warnings.simplefilter("ignore")
+DEFAULT_INIT = {"SubA": {"a": 5, "c": 9}, "SubB": {"a": 5, "b": "hey"}}
 INT_DEFAULT = 1
 STR_DEFAULT = "x"
 
@@ -75,8 +76,12 @@ def build_one(pd, **kw):
         tag = ("m" if "model" in names else "") + ("c" if "cb" in names else "") + ("d" if pd.get("dc") else "")
         p.add_class_arguments(c09_classes.HOLDERS[tag])
     else:
-        for name, is_callable in [co[:2] for co in base_cls]:
-            p.add_argument("--" + name, type=(Callable[[int], Base] if is_callable else Base), default=None)
+        for co in base_cls:
+            name, is_callable = co[:2]
+            dflt = None
+            if len(co) > 3 and co[3]:   # the default is a class spec WITH init_args
+                dflt = {"class_path": "c09_classes." + co[3], "init_args": DEFAULT_INIT[co[3]]}
+            p.add_argument("--" + name, type=(Callable[[int], Base] if is_callable else Base), default=dflt)
     if pd.get("lk"):
         # a dataclass-typed argument (group g), a class option whose subclasses annotate o differently, and a
         # parse-time link without compute_fn from the group key into the class' init_args
@@ -508,14 +513,20 @@ def run_history(case):
             res.append(table[a])
         return res
 
-    def fresh(i):
+    def fresh(i, imports):
         op = ops[i]
 
         def f():
+            # same import state as the re-used side at this point: which harness modules a class_path has pulled in
+            # is environment (it changes the "known subclasses" of every help text), not state of jsonargparse
+            for m in imports:
+                __import__(m)
             root, _, _ = build(decls[op["p"]], op["p"])
             return run_op(root, decls[op["p"]], op["p"], op)
 
         return f
+
+    base_modules = {m for m in sys.modules if m.startswith("c09_")}
 
     def hist():
         warm_up()
@@ -524,8 +535,9 @@ def run_history(case):
         init = tr.state()
         steps = []
         for op in ops:
+            imports = sorted(m for m in sys.modules if m.startswith("c09_") and m not in base_modules)
             o = run_op(built[op["p"]][0], decls[op["p"]], op["p"], op)
-            steps.append({"out": o, "state": tr.state()})
+            steps.append({"out": o, "state": tr.state(), "imports_before": imports})
         return {"init": init, "steps": steps}
 
     h = in_child(hist)
@@ -533,7 +545,7 @@ def run_history(case):
         return {"crash": h["crash"]}
     h = h["ok"]
     for i in range(len(ops)):
-        f = in_child(fresh(i))
+        f = in_child(fresh(i, h["steps"][i].get("imports_before", [])))
         if "crash" in f:
             return {"crash": f["crash"]}
         h["steps"][i]["fresh"] = f["ok"]
